@@ -1,7 +1,10 @@
 (* Property C11: allocators hand out disjoint, aligned, in-bounds blocks and lose no memory.
    Only the property theorems, each closed by [exact] of a lemma and followed by Print Assumptions.
-   Where the unchanged code violates the full statement, the full statement is a Definition of
-   Spec.v, refuted here with a concrete history, next to the strongest restriction that holds. *)
+   The models mirror lib/allocators after the repairs 484ce8f (arena/stack overflow test, arena
+   alloc(0)), 961d315 (pool deallocall), 942c78c (heap size overflow), b8d094a (heap realloc-shrink
+   coalescing): every statement below is the full-strength one, over ALL histories with sizes
+   anywhere in 0 .. 2^64-1; no [_partial]/[_refuted] pair is left.  The only hypotheses are the
+   [*cfg_ok] facts about the buffer (a real object that does not wrap the address space). *)
 From Coq Require Import ZArith List Bool Permutation.
 From Base Require Import LuaInt.
 From C11 Require Import Gen Model Heap HeapA Spec SpecHeap ProofsArena ProofsStack ProofsPool ProofsHeap ProofsHeapNaf.
@@ -9,34 +12,19 @@ Import ListNotations.
 Local Open Scope Z_scope.
 
 (* ---------------- arena ---------------- *)
-(* every history of alloc/alloc0/realloc/realloc0/dealloc/deallocall/client writes whose sizes are
-   non-zero for alloc and stay SIZE+ALIGN below 2^64 runs without tripping a check and keeps every
-   live block inside the buffer, aligned to ALIGN and disjoint from every other live block *)
-Theorem C11_arena_safe_partial : forall c ops, acfg_ok c -> Forall (aop_dom c) ops ->
+(* every history of alloc/alloc0/realloc/realloc0/dealloc/deallocall/client writes runs without
+   tripping a run-time check and keeps every live block inside the buffer, aligned to ALIGN and
+   disjoint from every other live block *)
+Theorem C11_arena_safe : forall c ops, acfg_ok c -> Forall aop_usize ops ->
   exists s live, arun c (arena_init, []) ops = Some (s, live) /\
                  good_blocks (a_base c) (a_size c) (a_align c) live.
-Proof. exact arena_safe_partial_proof. Qed.
-Print Assumptions C11_arena_safe_partial.
-
-(* offset + size wraps: arena(64,8): alloc(16); alloc(2^64-8) yields a live block outside the buffer *)
-Theorem C11_arena_safe_refuted : ~ arena_safe_full.
-Proof. exact arena_safe_refuted_proof. Qed.
-Print Assumptions C11_arena_safe_refuted.
-
-(* alloc(0) returns a zero-size block whose release rewinds over a later block *)
-Theorem C11_arena_safe_nowrap_refuted : ~ arena_safe_nowrap.
-Proof. exact arena_safe_nowrap_refuted_proof. Qed.
-Print Assumptions C11_arena_safe_nowrap_refuted.
-
-(* alloc(0) on a full arena fails the bounds check of &self.buffer[offset] *)
-Theorem C11_arena_total_refuted : ~ arena_total_full.
-Proof. exact arena_total_refuted_proof. Qed.
-Print Assumptions C11_arena_total_refuted.
+Proof. exact arena_safe_proof. Qed.
+Print Assumptions C11_arena_safe.
 
 Theorem C11_arena_realloc_preserves : forall c ops s live i b n s' q,
-  acfg_ok c -> Forall (aop_dom c) ops ->
+  acfg_ok c -> Forall aop_usize ops ->
   arun c (arena_init, []) ops = Some (s, live) ->
-  nth_error live i = Some b -> 0 < n -> n + a_size c + a_align c <= two64 ->
+  nth_error live i = Some b -> 0 < n < two64 ->
   arena_realloc c s (b_addr b) n (b_size b) = Some (s', q) -> q <> 0 ->
   (forall k, 0 <= k < Z.min n (b_size b) -> a_bytes s' (q + k) = a_bytes s (b_addr b + k)) /\
   (forall j b', j <> i -> nth_error live j = Some b' ->
@@ -58,93 +46,70 @@ Proof. exact arena_realloc0_zeroes_proof. Qed.
 Print Assumptions C11_arena_realloc0_zeroes.
 
 (* ---------------- stack ---------------- *)
-(* every history (out-of-order deallocs abort, clients may overwrite any word touching their own
-   blocks) with sizes SIZE+ALIGN+header below 2^64 keeps the live blocks in bounds, aligned and
-   disjoint; once every block has been released the offsets are back to 0 0 *)
-Theorem C11_stack_safe_partial : forall c ops s live,
-  scfg_ok c -> Forall (sop_dom c) ops -> srun c (stack_init, []) ops = Some (s, live) ->
+(* every history that does not abort (an out-of-order dealloc is the documented precondition and
+   fails the allocator's check; clients may overwrite any word touching their own blocks) keeps
+   the live blocks in bounds, aligned and disjoint; once every block has been released the offsets
+   are back to 0 0 *)
+Theorem C11_stack_safe : forall c ops s live,
+  scfg_ok c -> Forall sop_usize ops -> srun c (stack_init, []) ops = Some (s, live) ->
   good_blocks (s_base c) (s_size c) (s_align c) live /\
   (live = [] -> s_prev s = 0 /\ s_curr s = 0).
-Proof. exact stack_safe_partial_proof. Qed.
-Print Assumptions C11_stack_safe_partial.
-
-Theorem C11_stack_safe_refuted : ~ stack_safe_full.
-Proof. exact stack_safe_refuted_proof. Qed.
-Print Assumptions C11_stack_safe_refuted.
+Proof. exact stack_safe_proof. Qed.
+Print Assumptions C11_stack_safe.
 
 Theorem C11_stack_alloc_dealloc_restores : forall c ops s live n s1 p,
-  scfg_ok c -> Forall (sop_dom c) ops -> srun c (stack_init, []) ops = Some (s, live) ->
-  0 <= n -> n + s_size c + s_align c + STACK_HEADER_SIZE <= two64 ->
+  scfg_ok c -> Forall sop_usize ops -> srun c (stack_init, []) ops = Some (s, live) ->
+  0 <= n < two64 ->
   stack_alloc c s n = (s1, p) -> p <> 0 ->
   exists s2, stack_dealloc c s1 p = Some s2 /\ s_prev s2 = s_prev s /\ s_curr s2 = s_curr s.
 Proof. exact stack_alloc_dealloc_restores_proof. Qed.
 Print Assumptions C11_stack_alloc_dealloc_restores.
 
 (* ---------------- pool ---------------- *)
-(* as long as deallocall is never called on a pool that no alloc has initialised yet: live blocks
-   are distinct whole chunks (never handed out twice while live), and once initialised the free
-   list together with the live blocks is exactly the set of chunks (no chunk is ever lost) *)
-Theorem C11_pool_safe_partial : forall c ops s live,
-  pcfg_ok c -> Forall pop_usize ops -> prun_dom c (pool_init, []) ops ->
+(* over all histories (including deallocall before the first alloc): live blocks are distinct
+   whole chunks (never handed out twice while live), and once initialised the free list together
+   with the live blocks is exactly the set of chunks (no chunk is ever lost) *)
+Theorem C11_pool_safe : forall c ops s live,
+  pcfg_ok c -> Forall pop_usize ops ->
   prun c (pool_init, []) ops = Some (s, live) ->
   pool_good c live /\
   (p_initialized s = true ->
    exists fl, flist (p_mem s) (p_head s) fl /\ Permutation (fl ++ map b_addr live) (all_chunks c)).
-Proof. exact pool_safe_partial_proof. Qed.
-Print Assumptions C11_pool_safe_partial.
-
-(* pool(8 bytes x 4): deallocall; 5 x alloc(8): chunk 0 is live twice *)
-Theorem C11_pool_safe_refuted : ~ pool_safe_full.
-Proof. exact pool_safe_refuted_proof. Qed.
-Print Assumptions C11_pool_safe_refuted.
+Proof. exact pool_safe_proof. Qed.
+Print Assumptions C11_pool_safe.
 
 (* ---------------- heap (abstract chunk-list model, compared with the code on every check) -------- *)
-(* every history with sizes below 2^63 runs without a panic; in every reachable state the chunks tile
-   the region, are 16-aligned, every bin lists exactly the free chunks of its size class (once),
-   the live blocks are exactly the payloads of the used chunks (no block lost, none duplicated),
-   and hence they are in bounds, 16-aligned and pairwise disjoint *)
-Theorem C11_heap_safe_partial : forall c ops, hcfg_ok c -> Forall hop_dom ops ->
+(* every history runs without a panic; in every reachable state the chunks tile the region, are
+   16-aligned, every bin lists exactly the free chunks of its size class (once), the live blocks
+   are exactly the payloads of the used chunks (no block lost, none duplicated), and hence they
+   are in bounds, 16-aligned and pairwise disjoint *)
+Theorem C11_heap_safe : forall c ops, hcfg_ok c -> Forall hop_usize ops ->
   exists s live, hrun c (ha_init_state, []) ops = Some (s, live) /\ heap_wf c s live /\
                  good_blocks (h_base c) (h_size c) ALLOC_ALIGN live.
-Proof. exact heap_safe_partial_proof. Qed.
-Print Assumptions C11_heap_safe_partial.
-
-(* size + header wraps: heap(1024): alloc(2^64-8) returns a 0-byte chunk *)
-Theorem C11_heap_safe_refuted : ~ heap_safe_full.
-Proof. exact heap_safe_refuted_proof. Qed.
-Print Assumptions C11_heap_safe_refuted.
+Proof. exact heap_safe_proof. Qed.
+Print Assumptions C11_heap_safe.
 
 (* dealloc of any non-nil pointer that is not a live block (second free of the same pointer,
    foreign pointer) panics instead of touching the heap *)
 Theorem C11_heap_invalid_free_reported : forall c ops s live p,
-  hcfg_ok c -> Forall hop_dom ops -> hrun c (ha_init_state, []) ops = Some (s, live) ->
+  hcfg_ok c -> Forall hop_usize ops -> hrun c (ha_init_state, []) ops = Some (s, live) ->
   ha_initialized s = true -> 0 < p < two64 -> ~ In p (map b_addr live) ->
   ha_dealloc s p = HPanic.
 Proof. exact heap_invalid_free_reported_proof. Qed.
 Print Assumptions C11_heap_invalid_free_reported.
 
-(* realloc-shrink in front of a free chunk does not coalesce *)
-Theorem C11_heap_no_adjacent_free_refuted : ~ heap_no_adjacent_free_full.
-Proof. exact heap_no_adjacent_free_refuted_proof. Qed.
-Print Assumptions C11_heap_no_adjacent_free_refuted.
-
-Theorem C11_heap_release_all_restores_refuted : ~ heap_release_all_restores_full.
-Proof. exact heap_release_all_restores_refuted_proof. Qed.
-Print Assumptions C11_heap_release_all_restores_refuted.
-
-(* as long as no realloc shrinks-and-splits a chunk in place right in front of a free chunk, no two
-   adjacent chunks are ever both free ... *)
-Theorem C11_heap_no_adjacent_free_partial : forall c ops s live,
-  hcfg_ok c -> Forall hop_dom ops -> hrun_dom c (ha_init_state, []) ops ->
+(* no two adjacent chunks are ever both free *)
+Theorem C11_heap_no_adjacent_free : forall c ops s live,
+  hcfg_ok c -> Forall hop_usize ops ->
   hrun c (ha_init_state, []) ops = Some (s, live) -> no_adjacent_free (ha_chunks s).
-Proof. exact heap_no_adjacent_free_partial_proof. Qed.
-Print Assumptions C11_heap_no_adjacent_free_partial.
+Proof. exact heap_no_adjacent_free_proof. Qed.
+Print Assumptions C11_heap_no_adjacent_free.
 
-(* ... and once every block has been released (in any order) the heap answers every request
-   exactly as a fresh heap does (it IS the freshly initialised heap again) *)
-Theorem C11_heap_release_all_restores_partial : forall c ops s n,
-  hcfg_ok c -> Forall hop_dom ops -> hrun_dom c (ha_init_state, []) ops ->
+(* once every block has been released (in any order, after any history) the heap answers every
+   request exactly as a fresh heap does: it IS the freshly initialised heap again *)
+Theorem C11_heap_release_all_restores : forall c ops s n,
+  hcfg_ok c -> Forall hop_usize ops ->
   hrun c (ha_init_state, []) ops = Some (s, []) ->
   ha_alloc c s n = ha_alloc c ha_init_state n.
-Proof. exact heap_release_all_restores_partial_proof. Qed.
-Print Assumptions C11_heap_release_all_restores_partial.
+Proof. exact heap_release_all_restores_proof. Qed.
+Print Assumptions C11_heap_release_all_restores.
